@@ -518,6 +518,27 @@ pub fn run(rep: &mut Report, driver: &str, workers: usize, thorough: bool, seed:
         cmp(&SocketAddr::new(IpAddr::V4(v4), 8080), rep, &mut sr);
         cmp(&vec![(String::from("peer"), IpAddr::V6(v6))].into_iter().collect::<std::collections::BTreeMap<_, _>>(), rep, &mut sr);
         cmp(&std::time::Duration::new(5, 7), rep, &mut sr);
+        // the standard library's own time types at the edges of chrono's (a serializer that recognises them by shape must
+        // stay total): whole seconds at TimeDelta::MAX with every sub-second part, u64::MAX seconds, the epoch and far instants
+        for secs in [0u64, 1, 9_223_372_036_854_774, 9_223_372_036_854_775, 9_223_372_036_854_776, i64::MAX as u64, u64::MAX, 8_210_266_876_799, 8_210_266_876_800] {
+            for nanos in [0u32, 1, 806_999_999, 807_000_000, 807_000_001, 900_000_000, 999_999_999] {
+                cmp(&std::time::Duration::new(secs, nanos), rep, &mut sr);
+            }
+        }
+        for d in [0u64, 1, 1_438_226_773, 8_210_266_876_799, 8_210_266_876_800, 9_223_372_036, 9_223_372_037] {
+            if let Some(t) = std::time::UNIX_EPOCH.checked_add(std::time::Duration::new(d, 999_999_999)) {
+                cmp(&t, rep, &mut sr);
+            }
+            if let Some(t) = std::time::UNIX_EPOCH.checked_sub(std::time::Duration::new(d.min(8_000_000_000), 1)) {
+                let _ = catch_unwind(AssertUnwindSafe(|| t.serialize(ValueSerializer))).map_err(|_| rep.add_finding(Finding { kind: "impl-violates-property".into(), stream: "serde-data-model".into(), case: format!("std\t{:?}", t), human: format!("{:?}", t), impl_out: "PANIC".into(), model_out: "a value or an error".into(), predicate: "serialization is total".into(), signature: "C13 panic std-type".into() }));
+            }
+        }
+        cmp(&vec![std::time::Duration::new(9_223_372_036_854_775, 900_000_000)], rep, &mut sr);
+        cmp(&std::collections::BTreeMap::from([("timeout", std::time::Duration::new(9_223_372_036_854_775, 999_999_999))]), rep, &mut sr);
+        cmp(&std::num::Wrapping(u64::MAX), rep, &mut sr);
+        cmp(&std::ops::Bound::Included(i64::MIN), rep, &mut sr);
+        cmp(&std::ffi::CString::new("abc").unwrap(), rep, &mut sr);
+        cmp(&Some(std::sync::atomic::AtomicU64::new(u64::MAX)), rep, &mut sr);
         cmp(&std::path::PathBuf::from("/a/b"), rep, &mut sr);
         cmp(&(1u8..4u8), rep, &mut sr);
         cmp(&std::num::NonZeroU8::new(3), rep, &mut sr);
